@@ -569,6 +569,10 @@ func run(r *eng.Runner) {
 				r.Do(&RouteCase{Kind: "filter", Target: f, Files: frs[0].files(posAlt[i]), Uses: false, Label: "top/same-file"})
 			}
 		}
+		// spellings that may or may not be part of the grammar: with the filter banned they do not compile either way
+		for _, p := range []string{"{{ (x)|" + f + " }}", "{% if (x)|" + f + " %}a{% endif %}", "{{ (x + 1)|" + f + " }}", "{% macro mq(p=(x)|" + f + ") %}a{% endmacro %}{{ mq() }}", "{{ x | " + f + " }}", "{{ [x]|" + f + " }}", "{{ l.0|" + f + " }}", "{{ fn(x)|" + f + " }}", "{{ \"a\" \"b\"|" + f + " }}"} {
+			r.Do(&RouteCase{Kind: "filter", Target: f, Files: frs[0].files(p), Uses: true, Label: "top/same-file/unusual-spelling"})
+		}
 		if r.Stopped() {
 			return
 		}
